@@ -631,7 +631,7 @@ def r23model(ctx: Ctx) -> RuleReport:
             from ..rx import ParsedPattern as _PP
             _pp = _PP(pv)
             _pp.alternatives()
-            anything = Lang.from_pattern(r'[\s\S]*')
+            anything = Lang.from_pattern(r'[^\n]*')       # roles never contain a line feed (lexical grammar), and `.` does not match one
             if meth in ('match', 'search') and not getattr(_pp, 'has_end_assertion', False):
                 got_l = got_l.cat(anything)          # re.match / re.search accept a prefix when the pattern has no `$`
             if meth == 'search' and not getattr(_pp, 'has_begin_assertion', False):
@@ -1037,6 +1037,9 @@ def r95(ctx: Ctx) -> RuleReport:
     else:
         resets = [n for n in walk_local(fi.node) if isinstance(n, ast.Assign) and isinstance(n.targets[0], ast.Subscript) and isinstance(n.value, ast.Call)
                   and norm(n.value.func) == 'set' and not n.value.args]
+        _c = CFG(fi.node)
+        _live = _c.reachable_from([_c.entry])
+        resets = [n for n in resets if _c.node_of(n) in _live]
         unguarded = [n for n in resets if not any(pol and ' not in ' in f for f, pol in facts_ex(ctx, fi, n))]
         adds = [n for n in walk_local(fi.node) if isinstance(n, ast.Call) and isinstance(n.func, ast.Attribute) and n.func.attr == 'add' and isinstance(n.func.value, ast.Subscript)]
         if unguarded:
